@@ -35,6 +35,21 @@ func (OracleC02) AfterTxn(w *World, bc *BlockCtx, o *Outcome) {
 	if inserts > 0 {
 		w.Tr.Probe("failed_after_state_write")
 	}
+	// none of the failed call's writes may survive anywhere a later transaction
+	// can read them from: the trie (diff below) and the state cache stack
+	seenKey := map[string]bool{}
+	for _, a := range append([]Access(nil), w.Reg.Accesses...) {
+		if (a.Op != cstate.VerifOpInsert && a.Op != cstate.VerifOpDelete) || seenKey[a.Key] {
+			continue
+		}
+		seenKey[a.Key] = true
+		if bad, why := cacheVsTrie(w, bc, a.Key); bad {
+			w.Tr.Violate(&sim.Violation{Prop: "C02", Oracle: "cache", Sig: fmt.Sprintf("C02/failed-call-write-visible-through-state-cache/%s", fn),
+				Detail: fmt.Sprintf("key %q written by chargeable-failed %s: %s", a.Key, fn, why)})
+			break
+		}
+		w.Tr.Probe("failed_write_not_in_cache")
+	}
 	accts, recs := w.SplitChanges(o.Changes())
 	for k := range recs {
 		w.Tr.Violate(&sim.Violation{Prop: "C02", Oracle: "diff", Sig: fmt.Sprintf("C02/failed-call-changed-record/%s", fn),
@@ -227,6 +242,33 @@ func uncachedRaw(sc *cstate.StateContext, key string) ([]byte, error) {
 	st := sc.GetState()
 	ref := util.NewMerklePatriciaTrie(st.GetNodeDB(), st.GetVersion(), st.GetRoot(), statecache.NewEmpty())
 	return ref.GetNodeValueRaw(util.Path(encryption.Hash(key)))
+}
+
+// cacheVsTrie reads key through the cache stack of a scratch context on the
+// block under assembly and through an uncached trie view; it reports whether
+// they disagree (presence or content).
+func cacheVsTrie(w *World, bc *BlockCtx, key string) (bool, string) {
+	proto := w.Reg.NewValue(key)
+	if proto == nil {
+		return false, ""
+	}
+	sc := w.StateContextOn(bc)
+	raw, terr := uncachedRaw(sc, key)
+	v1 := freshLike(proto)
+	hooks := w.Reg.Hooks
+	w.Reg.Hooks = nil
+	gerr := sc.GetTrieNode(key, v1)
+	w.Reg.Hooks = hooks
+	if (gerr == nil) != (terr == nil) {
+		return true, fmt.Sprintf("through cache err=%v, trie err=%v", gerr, terr)
+	}
+	if gerr != nil {
+		return false, ""
+	}
+	if !(&OracleC07{}).same(v1, raw, proto) {
+		return true, "cache stack and trie hold different values"
+	}
+	return false, ""
 }
 
 type OracleC07 struct {
@@ -441,6 +483,7 @@ func (c *OracleC08) onAccess(a *Access) {
 	c.seen[tn]++
 	if c.seen[tn] == 1 {
 		w.Tr.Probe("type:" + tn)
+		c.checkVersions(a.V, tn)
 	}
 	b1, err := a.V.MarshalMsg(nil)
 	if err != nil {
@@ -482,4 +525,4 @@ func (c *OracleC08) onAccess(a *Access) {
 }
 
 func (c *OracleC08) AfterTxn(w *World, bc *BlockCtx, o *Outcome) {}
-func (c *OracleC08) AfterBlock(w *World, bc *BlockCtx)          {}
+func (c *OracleC08) AfterBlock(w *World, bc *BlockCtx)           {}
